@@ -46,6 +46,8 @@ class CpuSlots:
             cpus = sorted(os.sched_getaffinity(0))
         except (AttributeError, OSError):
             cpus = []
+        import random
+        random.Random(os.getpid()).shuffle(cpus)     # several drivers at once should not all start on CPU 0
         for c in cpus:
             self.q.put(c)
         self.enabled = bool(cpus)
